@@ -22,28 +22,31 @@ VARIABLES st,        \* local order status: "NONE","PENDING","EXECUTABLE","CANCE
           pool,      \* sequence of [kind, retry]
           snaps,     \* sequence of exchange states captured
           lastSnapFresh, \* the last processed snapshot reflects the current exchange state and came after the last response
-          calls, steps, tainted
-vars == <<st, betKnown, live, xbet, pool, snaps, lastSnapFresh, calls, steps, tainted>>
+          calls, steps, tainted,
+          last       \* history: the action taken and its choice (for replaying behaviours into the code; hidden by View)
+vars == <<st, betKnown, live, xbet, pool, snaps, lastSnapFresh, calls, steps, tainted, last>>
+View == <<st, betKnown, live, xbet, pool, snaps, lastSnapFresh, calls, steps, tainted>>
 
 Init == /\ st = "NONE" /\ betKnown = FALSE /\ live = FALSE /\ xbet = "none" /\ pool = <<>> /\ snaps = <<>>
         /\ lastSnapFresh = FALSE /\ calls = 0 /\ steps = 0 /\ tainted = {}
+        /\ last = [act |-> "init"]
 
 Tick == steps' = steps + 1
 Dirty == lastSnapFresh' = FALSE
 
 Place == /\ st = "NONE" /\ steps < MaxSteps
          /\ st' = "PENDING" /\ live' = TRUE /\ pool' = Append(pool, [kind |-> "PLACE", retry |-> 0])
-         /\ UNCHANGED <<betKnown, xbet, snaps, calls, tainted>> /\ Tick /\ Dirty
+         /\ UNCHANGED <<betKnown, xbet, snaps, calls, tainted>> /\ Tick /\ Dirty /\ last' = [act |-> "place"]
 Cancel == /\ st = "EXECUTABLE" /\ betKnown /\ steps < MaxSteps
           /\ st' = "CANCELLING" /\ pool' = Append(pool, [kind |-> "CANCEL", retry |-> 0])
-          /\ UNCHANGED <<betKnown, live, xbet, snaps, calls, tainted>> /\ Tick /\ Dirty
+          /\ UNCHANGED <<betKnown, live, xbet, snaps, calls, tainted>> /\ Tick /\ Dirty /\ last' = [act |-> "cancel"]
 
 \* BaseOrder.executable(): complete is final
 Exec(s) == IF s = "COMPLETE" THEN "COMPLETE" ELSE "EXECUTABLE"
 
 RunPlace(p) ==
     \E oc \in {"SUCCESS", "FAILURE", "TIMEOUT", "TIMEOUT_PLACED", "RAISE", "RAISE_APPLIED"} :
-      /\ calls' = calls + 1
+      /\ calls' = calls + 1 /\ last' = [act |-> "run", kind |-> "PLACE", oc |-> oc, placed |-> xbet # "none"]
       /\ IF oc = "SUCCESS"
          THEN /\ xbet' = IF xbet = "none" THEN "exec" ELSE xbet     \* repeated customerRef is not applied twice
               /\ st' = Exec(st) /\ betKnown' = TRUE /\ pool' = Tail(pool) /\ UNCHANGED <<live, tainted>>
@@ -63,7 +66,7 @@ RunPlace(p) ==
 
 RunCancel(p) ==
     \E oc \in {"SUCCESS", "FAILURE", "TIMEOUT", "RAISE"} :
-      /\ calls' = calls + 1
+      /\ calls' = calls + 1 /\ last' = [act |-> "run", kind |-> "CANCEL", oc |-> oc, placed |-> TRUE]
       /\ IF oc = "SUCCESS"
          THEN IF xbet = "exec"
               THEN xbet' = "done" /\ st' = "COMPLETE" /\ pool' = Tail(pool)
@@ -80,9 +83,9 @@ PoolRun == /\ pool # <<>> /\ steps < MaxSteps
            /\ UNCHANGED snaps /\ Tick /\ Dirty
 
 ExFill == /\ xbet = "exec" /\ steps < MaxSteps /\ xbet' = "done"
-          /\ UNCHANGED <<st, betKnown, live, pool, snaps, calls, tainted>> /\ Tick /\ Dirty
+          /\ UNCHANGED <<st, betKnown, live, pool, snaps, calls, tainted>> /\ Tick /\ Dirty /\ last' = [act |-> "fill"]
 TakeSnap == /\ steps < MaxSteps /\ Len(snaps) < 3 /\ snaps' = Append(snaps, xbet)
-            /\ UNCHANGED <<st, betKnown, live, xbet, pool, calls, tainted, lastSnapFresh>> /\ Tick
+            /\ UNCHANGED <<st, betKnown, live, xbet, pool, calls, tainted, lastSnapFresh>> /\ Tick /\ last' = [act |-> "snap"]
 
 \* process_current_orders / process_current_order for a snapshot showing exchange state x
 ProcSnap ==
@@ -95,6 +98,7 @@ ProcSnap ==
                               ELSE IF st = "EXECUTABLE" /\ x = "done" THEN "COMPLETE" ELSE st
                     IN st' = s2 /\ live' = IF s2 = "COMPLETE" THEN FALSE ELSE live
             /\ lastSnapFresh' = (fresh /\ (lastSnapFresh \/ TRUE))
+            /\ last' = [act |-> "proc", i |-> i]
     /\ UNCHANGED <<betKnown, xbet, pool, snaps, calls, tainted>> /\ Tick
 
 Next == Place \/ Cancel \/ PoolRun \/ ExFill \/ TakeSnap \/ ProcSnap
